@@ -188,6 +188,9 @@ def _call(f):
         S.capped = True
         _prune('call-cap')
     S.calls += 1
+    import inspect as _inspect
+    if _inspect.iscoroutinefunction(f):
+        return V()          # never awaited: the body of an async def is not driven
     if not isinstance(f, (types.FunctionType, types.MethodType, type)):
         return f() if callable(f) else V()
     try:
